@@ -4,6 +4,7 @@ import os, re, shutil
 import cli
 
 PROP = "C16"
+PAR_OK = True
 LEVEL = "proof"
 RULE = ("every generator of tree/treegen.go (uniform, yule, caterpillar, balanced, star, star from names, AllTopologies), "
         "rooted and unrooted, sizes from 0 up to 40 (thorough: 150; balanced depth 0..6, thorough 8; enumerator n 0..7 "
